@@ -492,6 +492,60 @@ impl Evaluator {
     }
 }
 
+#[cfg(feature = "verif")]
+impl Evaluator {
+    pub fn verif_evaluate_binary(&self, expression: &BinaryExpression) -> LuaValue {
+        self.evaluate_binary(expression)
+    }
+    pub fn verif_evaluate_unary(&self, expression: &UnaryExpression) -> LuaValue {
+        self.evaluate_unary(expression)
+    }
+    pub fn verif_evaluate_if(&self, expression: &IfExpression) -> LuaValue {
+        self.evaluate_if(expression)
+    }
+    pub fn verif_evaluate_equal(&self, left: &LuaValue, right: &LuaValue) -> LuaValue {
+        self.evaluate_equal(left, right)
+    }
+    pub fn verif_evaluate_parenthese(&self, parenthese: &ParentheseExpression) -> LuaValue {
+        self.evaluate_parenthese_expression(parenthese)
+    }
+    pub fn verif_evaluate_prefix(&self, prefix: &Prefix) -> LuaValue {
+        self.evaluate_prefix(prefix)
+    }
+    pub fn verif_compare_strings(
+        &self,
+        left: &[u8],
+        right: &[u8],
+        operator: BinaryOperator,
+    ) -> LuaValue {
+        self.compare_strings(left, right, operator)
+    }
+    pub fn verif_if_expression_has_side_effects(&self, if_expression: &IfExpression) -> bool {
+        self.if_expression_has_side_effects(if_expression)
+    }
+    pub fn verif_table_entry_has_side_effects(&self, entry: &TableEntry) -> bool {
+        self.table_entry_has_side_effects(entry)
+    }
+    pub fn verif_field_has_side_effects(&self, field: &FieldExpression) -> bool {
+        self.field_has_side_effects(field)
+    }
+    pub fn verif_index_has_side_effects(&self, index: &IndexExpression) -> bool {
+        self.index_has_side_effects(index)
+    }
+    pub fn verif_prefix_has_side_effects(&self, prefix: &Prefix) -> bool {
+        self.prefix_has_side_effects(prefix)
+    }
+    pub fn verif_type_instantiation_has_side_effects(
+        &self,
+        type_instantiation: &TypeInstantiationExpression,
+    ) -> bool {
+        self.type_instantiation_has_side_effects(type_instantiation)
+    }
+    pub fn verif_maybe_metatable(&self, value: &LuaValue) -> bool {
+        self.maybe_metatable(value)
+    }
+}
+
 #[cfg(test)]
 mod test {
     use super::*;
